@@ -451,7 +451,7 @@ package tubes
 //@ macro finFires(pkt) = resultof(tubes.receiver.receive, fin) || (pkt.flags.FIN && called(atomic.Bool.Load) && resultof(atomic.Bool.Load, result))
 //@ macro ackFailed() = called(tubes.sender.recvAck) && resultof(tubes.sender.recvAck, err) != nil
 //@ func (r *Reliable) receive(pkt *frame) (err error)
-//@   property C08 C16
+//@   property C08 C16 C09
 //@   atomic
 //@   logical F uint64
 //@   requires qinv(r.recvWindow) && delivered(r.recvWindow)
